@@ -115,7 +115,7 @@ impl Solver {
 			full_timeout_ms: timeout_ms,
 		};
 		s.send("(set-option :print-success false)");
-		s.send(&format!("(set-option :timeout {})", timeout_ms.min(2500)));
+		s.send(&format!("(set-option :timeout {})", timeout_ms.min(2500 * tscale())));
 		s
 	}
 	fn send(&mut self, line: &str) {
@@ -146,7 +146,7 @@ impl Solver {
 	}
 	fn read_line(&mut self) -> String {
 		let _ = self.sin.flush();
-		let wait = Duration::from_millis(self.timeout_ms.min(2500) + 3000);
+		let wait = Duration::from_millis(self.timeout_ms.min(2500 * tscale()) + 3000);
 		let l = match self.sout.recv_timeout(wait) {
 			Ok(l) => l,
 			Err(std::sync::mpsc::RecvTimeoutError::Timeout) => {
@@ -177,7 +177,7 @@ impl Solver {
 		self.sout = sout;
 		self.prefer_standalone = true;
 		self.send("(set-option :print-success false)");
-		let t = self.timeout_ms.min(2500);
+		let t = self.timeout_ms.min(2500 * tscale());
 		self.send(&format!("(set-option :timeout {})", t));
 		let script = std::mem::take(&mut self.rebuild_lines);
 		for l in script {
@@ -394,7 +394,7 @@ impl Solver {
 		// 1. sound abstraction (products/quotients of symbolic terms uninterpreted): unsat is final
 		let abs_script = self.script_ex(tm, extra, true);
 		if abs_script.contains("abs_mul ") || abs_script.contains("abs_div ") {
-			let a = run_script(&format!("{} -in", self.cmd.split_whitespace().next().unwrap_or("z3")), &abs_script, 10);
+			let a = run_script(&format!("{} -in", self.cmd.split_whitespace().next().unwrap_or("z3")), &abs_script, 10 * tscale());
 			if a == "unsat" {
 				self.abs_decided += 1;
 				return Res::Unsat;
@@ -402,17 +402,17 @@ impl Solver {
 		}
 		let script = self.script(tm, extra);
 		let prog = self.cmd.split_whitespace().next().unwrap_or("z3").to_string();
-		let secs = (self.full_timeout_ms / 1000).max(1);
+		let secs = (self.full_timeout_ms / 1000).max(1) * tscale();
 		let mut ans;
 		if self.cvc5_decided > 0 {
-			ans = run_script("cvc5 --lang smt2", &script, secs.min(10));
+			ans = run_script("cvc5 --lang smt2", &script, secs.min(10 * tscale()));
 			if ans == "sat" || ans == "unsat" {
 				self.cvc5_decided += 1;
 			} else {
 				ans = run_script(&format!("{} -in", prog), &script, secs);
 			}
 		} else {
-			ans = run_script(&format!("{} -in", prog), &script, secs.min(6));
+			ans = run_script(&format!("{} -in", prog), &script, secs.min(6 * tscale()));
 			if ans != "sat" && ans != "unsat" && !ans.starts_with("error") {
 				// second standalone attempt with the other solver (different non-linear procedure)
 				let a2 = run_script("cvc5 --lang smt2", &script, secs);
@@ -635,6 +635,11 @@ impl Drop for Solver {
 }
 
 /// run a standalone script through another solver command; returns its first answer line
+/// RSX_TIME_SCALE=k multiplies every solver time cap (the driver re-runs an undecided core job alone with k = 4)
+pub fn tscale() -> u64 {
+	std::env::var("RSX_TIME_SCALE").ok().and_then(|v| v.parse::<u64>().ok()).unwrap_or(1).max(1)
+}
+
 pub fn run_script(cmd: &str, script: &str, timeout_s: u64) -> String {
 	let mut parts = cmd.split_whitespace();
 	let prog = parts.next().unwrap();
